@@ -28,6 +28,7 @@ V(xs) == [t |-> "vec", xs |-> xs]
 T(xs) == [t |-> "tup", xs |-> xs]
 Pt(x, tag) == [t |-> "struct", name |-> "Pt", fields |-> <<[n |-> "x", v |-> I(x)], [n |-> "tag", v |-> S(tag)]>>]
 W(s) == [t |-> "tstruct", name |-> "W", xs |-> <<S(s)>>]
+En(n) == [t |-> "struct", name |-> n, fields |-> <<>>]      \* unit-like enum variant: Debug = its name
 
 Ints == (0 - IntLoNeg)..IntHi
 SmallInts == {-1, 0, 1, 12}
@@ -50,9 +51,11 @@ Dom(s) ==
     [] s = "sl"    -> {<<V([i \in DOMAIN a |-> I(a[i])])>> : a \in UNION {[1..m -> SmallInts] : m \in 0..3}}
     [] s = "m_pt"  -> {<<Pt(x, tag), I(a)>> : x \in SmallInts, tag \in S2, a \in SmallInts}
     [] s = "m_w"   -> {<<W(a), S(b)>> : a \in S2, b \in S2}
+    [] s = "m_en_en" -> {<<En(a), En(b)>> : a \in {"A", "AB", "ABC"}, b \in {"B", "BC", "C", "CB"}}
+    [] s = "m_u_u_u" -> {<<I(a), I(b), I(c)>> : a \in {1, 7, 71, 11, 112}, b \in {1, 11, 12, 2}, c \in {1, 2, 12}}
     [] s = "five"  -> {<<I(a), I(b), S(c), C(d), B(e)>> : a \in {0, 7, 77}, b \in {-7, 7}, c \in S2, d \in Alphabet, e \in BOOLEAN}
 
-SigNames == {"i_i", "s", "s_s", "s_s_s", "rs_c", "b_oi", "vi_vi", "vs", "t_i", "os_s", "sl", "m_pt", "m_w", "five"}
+SigNames == {"i_i", "s", "s_s", "s_s_s", "rs_c", "b_oi", "vi_vi", "vs", "t_i", "os_s", "sl", "m_pt", "m_w", "m_en_en", "m_u_u_u", "five"}
 
 K(parts) == CASE Variant = "key" -> Key(parts)
               [] Variant = "nosep" -> KeyNoSep(parts)
